@@ -951,7 +951,13 @@ def record_trace(cfg, K=K_QUICK):
                     d = ("cp_sparse", w, fs, sp)
                 else:
                     d = ("cp", w, fs)
-                events.append({"id": "%s/cb%d" % (tid, j), "tr": tid, "ev": "Callback", "j": j,
+                # amplification: how large the iterate's entries are (ceil log10); a ring with over-parameterised ranks grows
+                # cores of size 1e10 that cancel, and then NO evaluation of the error is accurate beyond eps * amp^2
+                amp = 0
+                if cfg["alg"] == "tr_als":
+                    mx = max([float(np.max(np.abs(c_))) for c_ in fs] + [1.0])
+                    amp = int(math.ceil(math.log10(mx))) if math.isfinite(mx) else 99
+                events.append({"id": "%s/cb%d" % (tid, j), "tr": tid, "ev": "Callback", "j": j, "amp": amp,
                                "err": -1 if err is None else qe(err), "has_err": err is not None,
                                "true": qe(true_error(cfg, data, d, res.get("extra")))})
         except np.linalg.LinAlgError:
